@@ -16,7 +16,7 @@ from hypothesis import strategies as st
 from . import grammar as G
 
 SEG_NAMES = ["A", "B", "C", "D", "s1", "1", "2", "x.y", "a:b", "n*", "u+v", "w-", "12"]
-OTHER_NAMES = ["p1", "e1", "e2", "e3", "g1", "g2", "o1", "o2", "u1", "u2", "P", "7", "k;k", "id*", "e4", "e5",
+OTHER_NAMES = ["p1", "e1", "e2", "e3", "g1", "g2", "o1", "o2", "u1", "u2", "P", "7", "k;k", "id*", "e4", "e5", "1", "2", "3",
                "q1", "q2", "q3", "z9"]
 TAG_NAMES = ["xx", "ab", "X1", "zz", "aa", "cn", "q9", "Za", "bb", "i1"]
 CUSTOM_TYPES = ["X", "Y", "Z1", "ab", "?"]
